@@ -348,6 +348,185 @@ def bitprim_rule(chk, db):
         chk.analysis_broken("BITPRIM: only %d bit primitives found (floor 4)" % n)
 
 
+def agg_rule(chk, db):
+    """AGG: all() / any() / none() of basic_bitset are evaluated over the class domain of its words. A bitset of two words is
+    modelled; every word is zero (Z), full (O: `ones`, or `padding_mask_inv` for the padded last word) or mixed (M). The
+    quantifier algorithms range over the words they are given (`prev(cend())` drops the last word), the lambdas compare a word
+    with `ones` / 0, `_words[num_words - 1]` is the last word; both `if constexpr (has_padding)` alternatives are evaluated.
+    all() must hold exactly when every word is full, none() when every word is zero, any() = not none()."""
+    rq = "etl::basic_bitset"
+    members = dict((f["n"], f) for f in db.funcs_of_record(rq) if f["n"] in ("all", "any", "none") and f.get("body") is not None and not f["params"])
+    if len(members) < 3:
+        chk.analysis_broken("AGG: all() / any() / none() of basic_bitset not found")
+        return
+
+    class NM(Exception):
+        pass
+
+    class Ret(Exception):
+        def __init__(self, v):
+            self.v = v
+
+    def lam_truth(lam, cls, padded_last):
+        """truth of a one-parameter lambda `word == ones` / `word == 0` / `word != 0` on a word of class cls"""
+        body = lam.get("body")
+        st = (body.get("s") or [None])[0] if body else None
+        if st is None or st.get("k") != "return":
+            raise NM("lambda body")
+        pn = (lam.get("params") or [{}])[0].get("n")
+
+        def t(e):
+            e = astx.strip_casts(e)
+            while e is not None and e.get("k") == "paren":
+                e = astx.strip_casts(e.get("e"))
+            if e is None:
+                raise NM("empty")
+            if e.get("k") == "un" and e["op"] == "!":
+                return not t(e["e"])
+            if e.get("k") == "bin" and e["op"] in ("==", "!="):
+                sides = [astx.strip_casts(e["l"]), astx.strip_casts(e["r"])]
+                w = [x for x in sides if x is not None and x.get("k") == "ref" and x.get("n") == pn]
+                o = [x for x in sides if x is not w[0]] if w else []
+                if len(w) == 1 and len(o) == 1:
+                    other = o[0]
+                    while other is not None and other.get("k") in ("construct", "initlist") and len(other.get("a", [])) == 1:
+                        other = astx.strip_casts(other["a"][0])
+                    if other is not None and other.get("k") in ("ref", "mem") and other.get("n") == "ones":
+                        eq = cls == "O" and not padded_last      # a padded last word never equals `ones`
+                    elif other is not None and other.get("k") in ("ref", "mem") and other.get("n") == "padding_mask_inv":
+                        eq = cls == "O" and padded_last
+                    elif other is not None and (astx.int_value(other) == 0 or (other.get("k") in ("construct", "initlist") and not other.get("a"))):
+                        eq = cls == "Z"
+                    else:
+                        raise NM("word compared with " + astx.show(other, 20))
+                    return eq if e["op"] == "==" else not eq
+            raise NM(astx.show(e, 30))
+        return t(st.get("e"))
+
+    def ev(e, env):
+        e = astx.strip_casts(e)
+        while e is not None and e.get("k") == "paren":
+            e = astx.strip_casts(e.get("e"))
+        if e is None:
+            raise NM("empty")
+        k = e.get("k")
+        if k == "bool":
+            return bool(e["v"])
+        if k == "ref" and e["n"] in env["locals"]:
+            return env["locals"][e["n"]]
+        if k == "un" and e["op"] == "!":
+            return not ev(e["e"], env)
+        if k == "bin" and e["op"] in ("&&", "||"):
+            a, b = ev(e["l"], env), ev(e["r"], env)
+            return (a and b) if e["op"] == "&&" else (a or b)
+        if k == "bin" and e["op"] in ("==", "!="):
+            # _words[num_words - 1] == padding_mask_inv
+            l, r = astx.strip_casts(e["l"]), astx.strip_casts(e["r"])
+            for a, b in ((l, r), (r, l)):
+                if a is not None and a.get("k") == "idx" and "num_words" in astx.show(a["i"], 30) and b is not None and b.get("k") in ("ref", "mem"):
+                    cls = env["words"][-1]
+                    if b.get("n") == "padding_mask_inv":
+                        eq = cls == "O" and env["padded"]
+                    elif b.get("n") == "ones":
+                        eq = cls == "O" and not env["padded"]
+                    else:
+                        raise NM("last word compared with " + str(b.get("n")))
+                    return eq if e["op"] == "==" else not eq
+            raise NM(astx.show(e, 30))
+        if k == "call":
+            nm, q, recv, kind = astx.callee(e)
+            if nm in ("all_of", "any_of", "none_of") and len(e["a"]) == 3:
+                last_txt = astx.show(e["a"][1], 40)
+                idxs = list(range(len(env["words"])))
+                if "prev" in last_txt:
+                    idxs = idxs[:-1]
+                elif "end" not in last_txt:
+                    raise NM("range end " + last_txt)
+                if "begin" not in astx.show(e["a"][0], 40) or "next" in astx.show(e["a"][0], 40):
+                    raise NM("range begin")
+                lam = astx.strip_casts(e["a"][2])
+                if lam is not None and lam.get("k") == "ref" and lam["n"] in env["lambdas"]:
+                    lam = env["lambdas"][lam["n"]]
+                if lam is None or lam.get("k") != "lambda":
+                    raise NM("predicate is not a lambda")
+                vals = [lam_truth(lam, env["words"][i], env["padded"] and i == len(env["words"]) - 1) for i in idxs]
+                return all(vals) if nm == "all_of" else (any(vals) if nm == "any_of" else not any(vals))
+            if nm in members and not e["a"] and (kind != "member" or recv is None or astx.is_this(astx.strip_casts(recv))):
+                return run(members[nm], env["words"], env["padded"], env["depth"] + 1)
+        raise NM(astx.show(e, 30))
+
+    def run_stmt(st, env):
+        k = st.get("k")
+        if k == "seq":
+            for c in st["s"]:
+                run_stmt(c, env)
+        elif k == "decl":
+            for v in st["vars"]:
+                if "other" in v or v.get("init") is None:
+                    continue
+                i0 = astx.strip_casts(v["init"])
+                if i0 is not None and i0.get("k") == "lambda":
+                    env["lambdas"][v["n"]] = i0
+                else:
+                    env["locals"][v["n"]] = ev(v["init"], env)
+        elif k == "if":
+            if st.get("constexpr") and "has_padding" in astx.show(st["c"], 40):
+                neg = astx.show(st["c"], 40).strip().startswith("!") or astx.show(st["c"], 40).strip().startswith("not")
+                take_then = env["padded"] != neg
+                br = st.get("then") if take_then else st.get("else")
+            else:
+                br = st.get("then") if ev(st["c"], env) else st.get("else")
+            if br is not None:
+                run_stmt(br, env)
+        elif k == "return":
+            raise Ret(ev(st.get("e"), env))
+        else:
+            raise NM("statement " + str(k))
+
+    def run(f, words, padded, depth=0):
+        if depth > 3:
+            raise NM("recursion")
+        env = {"words": words, "padded": padded, "locals": {}, "lambdas": {}, "depth": depth}
+        try:
+            run_stmt(f["body"], env)
+        except Ret as r:
+            return bool(r.v)
+        raise NM("no return")
+
+    import itertools
+    for nm, f in sorted(members.items()):
+        construct = astx.sig(f)
+        chk.instance("AGG")
+        bad = unknown = None
+        cnt = 0
+        for padded in (False, True):
+            for words in itertools.product("ZOM", repeat=2):
+                try:
+                    got = run(f, list(words), padded)
+                except NM as ex:
+                    unknown = str(ex)
+                    break
+                cnt += 1
+                full = all(w == "O" for w in words)
+                zero = all(w == "Z" for w in words)
+                want = {"all": full, "none": zero, "any": not zero}[nm]
+                if got != want and bad is None:
+                    bad = (words, padded, got)
+            if unknown:
+                break
+        if unknown:
+            chk.obligation("AGG", construct, None)
+            chk.unknown_instance("AGG", construct, "not modelled: %s" % unknown)
+            continue
+        chk.obligation("AGG", construct, bad is None, evaluations=cnt)
+        if bad:
+            words, padded, got = bad
+            names = {"Z": "all zero", "O": "all ones", "M": "mixed"}
+            chk.violation("AGG", construct, "aggregate-query", "%s: with a first word that is %s and a last word that is %s (%s) %s() returns %s" % (
+                astx.loc(f), names[words[0]], names[words[1]], "padded width" if padded else "width a multiple of the word size", nm,
+                str(got).lower()), {"where": astx.loc(f)})
+
+
 def proxy_rule(chk, db):
     """PROXY: assignment to the bit proxy writes the referenced bit. Both `reference::operator=(bool)` and
     `reference::operator=(reference const&)` are user-provided and every path through them stores into the referenced word
@@ -620,6 +799,7 @@ def run(chk, tier):
     guard_rule(chk, db)
     proxy_rule(chk, db)
     bitprim_rule(chk, db)
+    agg_rule(chk, db)
     from ..rules import shift as _SH
     _SH.check(chk, db, ["_bit/", "_bitset/"], floor=20)      # SHIFT: shift counts stay below the promoted operand width
     strbit_rule(chk, db)
